@@ -192,6 +192,27 @@ def _layout_case(case, rng):
     else:
         case.count("terminal_checks", 0)
         case.count("own_goal_states", 0)
+    if rng.random() < 0.3:
+        # a game written by SUBCLASSING: the game is also over as soon as A0 stands on a flag cell (here: where it starts), said
+        # through the public is_absorbing - the hook the class's own dynamics consult
+        flag_xy = start["A0"]
+
+        class CaptureTheFlag(TabularGridGame):
+            def is_absorbing(self_, st_):
+                return (st_["A0"]["x"], st_["A0"]["y"]) == flag_xy or TabularGridGame.is_absorbing(self_, st_)
+        g2 = case.call("TabularGridGame subclass(is_absorbing overridden)", CaptureTheFlag, s, **gkw)
+        if g2 is not case.FAIL:
+            bad_ = []
+            for ja0, ja1 in list(itertools.product(ACTIONS, ACTIONS))[:6]:
+                ja = {"A0": dict(ja0), "A1": dict(ja1)}
+                d = case.call("next_state_dist(subclass)", g2.next_state_dist, s0, ja, facts=facts)
+                case.count("subclass_absorbing_overrides_checked")
+                if d is case.FAIL:
+                    continue
+                items = [(ns, d.prob(ns)) for ns in d.support if d.prob(ns) > 0]
+                if not (len(items) == 1 and g2.is_terminal(items[0][0])):
+                    bad_.append((ja0, ja1, items[:2]))
+            case.check(not bad_, "dynamics-ignore-the-game's-own-is_absorbing", lambda: f"{bad_[:1]!r} layout=\n{s}", **facts)
     freecells = w * h - len(obstacles)
     case.nontrivial = freecells >= 3 and npairs >= 50
     case.sig(s, fprob)
